@@ -67,12 +67,41 @@ def _jd(o):
     return repr(o)
 
 
+class CaseTimeout(BaseException):
+    """the per-case deadline fired (SIGALRM): code that does not come back is reported, not waited for"""
+
+
+CASE_TIMEOUT = float(os.environ.get("VERIF_CASE_TIMEOUT", "300"))
+
+
+def _on_alarm(signum, frame):
+    raise CaseTimeout("no result within the per-case deadline")
+
+
+class deadline:
+    """with deadline(seconds): ... -> CaseTimeout is raised inside the block when it runs longer (main thread, POSIX)"""
+
+    def __init__(self, seconds):
+        self.seconds = seconds
+
+    def __enter__(self):
+        import signal
+        self.old = signal.signal(signal.SIGALRM, _on_alarm)
+        signal.setitimer(signal.ITIMER_REAL, self.seconds)
+
+    def __exit__(self, *a):
+        import signal
+        signal.setitimer(signal.ITIMER_REAL, 0)
+        signal.signal(signal.SIGALRM, self.old)
+        return False
+
+
 def attempt(f, *a, **kw):
     """Call implementation code. -> ("ok", value) | ("exc", "TypeName: msg")"""
     try:
         return "ok", f(*a, **kw)
     except BaseException as e:  # SystemExit/AssertionError included: any refusal counts
-        if isinstance(e, (KeyboardInterrupt, MemoryError)):
+        if isinstance(e, (KeyboardInterrupt, MemoryError, CaseTimeout)):
             raise
         return "exc", "%s: %s" % (type(e).__name__, str(e)[:120])
 
@@ -106,7 +135,8 @@ def isolated(fn, *args):
         try:
             os.close(r)
             try:
-                payload = pickle.dumps(("ok", fn(*args)))
+                with deadline(CASE_TIMEOUT * 0.9):
+                    payload = pickle.dumps(("ok", fn(*args)))
             except BaseException as e:
                 v = impl_exception("?", e)
                 payload = pickle.dumps(("impl", v) if v is not None else ("err", traceback.format_exc()))
@@ -147,6 +177,8 @@ def impl_exception(prop, exc):
     last_repo = last_verif = None
     depth = 0
     while tb is not None:
+        if isinstance(exc, CaseTimeout) and tb.tb_frame.f_code is _on_alarm.__code__:
+            break                      # the handler's own frame says nothing about where the time was spent
         f = os.path.realpath(tb.tb_frame.f_code.co_filename)
         if f.startswith(REPO + os.sep):
             last_repo = (depth, os.path.basename(f), tb.tb_frame.f_code.co_name, tb.tb_lineno)
@@ -156,14 +188,20 @@ def impl_exception(prop, exc):
         tb = tb.tb_next
     if isinstance(exc, HarnessError) or last_repo is None or (last_verif is not None and last_verif > last_repo[0]):
         return None
+    if isinstance(exc, CaseTimeout):
+        return V("%s:no-termination:%s" % (prop, last_repo[2]),
+                 "the implementation did not return within the per-case deadline (%d s); it was executing %s:%s (line %d) when stopped" % (
+                     CASE_TIMEOUT, last_repo[1], last_repo[2], last_repo[3]))
     return V("%s:unexpected-exception:%s:%s" % (prop, last_repo[2], type(exc).__name__),
              "the implementation raised %s: %s in %s:%s (line %d) on a request that must succeed" % (
                  type(exc).__name__, str(exc)[:160], last_repo[1], last_repo[2], last_repo[3]))
 
 
 def guarded(prop, fn, case):
+    limit = getattr(sys.modules.get(getattr(fn, "__module__", ""), None), "CASE_TIMEOUT", CASE_TIMEOUT)
     try:
-        return fn(case)
+        with deadline(limit):
+            return fn(case)
     except BaseException as e:
         if isinstance(e, (KeyboardInterrupt, MemoryError)):
             raise
